@@ -1663,7 +1663,74 @@ def check_apply_trigger_waits(u):
     return obligations, failures, samples
 
 
-CHECKS = {"apply_trigger_waits": check_apply_trigger_waits, "last_id_published": check_last_id_published, "sub_select_only": check_sub_select_only, "broadcast_delivery": check_broadcast_delivery, "updates_row_binding": check_updates_row_binding, "row_bindings": check_row_bindings, "feeds_fed": check_feeds_fed, "exists_binding": check_exists_binding, "seqmerge_params": check_seqmerge_params, "chunker_ranges": check_chunker_ranges, "persist_before_publish": check_persist_before_publish, "schema_reload": check_schema_reload, "cluster_id_fresh": check_cluster_id_fresh, "schema_ddl": check_schema_ddl, "schema_atomic": check_schema_atomic, "seq_range_guard": check_seq_range_guard, "exits_covered": check_exits_covered, "sub_lag_stops": check_sub_lag_stops, "single_snapshot": check_single_snapshot, "offer_loops": check_offer_loops, "speedy_prealloc": check_speedy_prealloc, "from_conn": check_from_conn, "sql_actor_scoping": check_sql_actor_scoping, "local_write_sequence": check_local_write_sequence, "insert_local_changes": check_insert_local_changes, "authz_layer": check_authz_layer, "readonly_guard": check_readonly_guard, "read_pool": check_read_pool}
+def check_lagged_arm_returns(u):
+    """C14 (and C12 for subscriptions): a feed forwarder reads events from a tokio broadcast receiver; `RecvError::Lagged(n)` means n events
+    are gone for good.  The forwarder must end the stream there (the client re-attaches and re-reads): carrying on would silently skip the
+    notifications of the lost events."""
+    file = u["file"]
+    src, msk, o, c = _fn_body(file, u["fn"])
+    name = "lagged-broadcast-receiver-stops-the-feed"
+    arms = list(re.finditer(r"Err\s*\(\s*(?:\w+\s*::\s*)*RecvError\s*::\s*Lagged\s*\([^)]*\)\s*\)\s*=>", msk[o:c]))
+    if not arms:
+        # the error may be swallowed by a refutable pattern (`Ok(x) = rx.recv()` in select!, `while let Ok(..)`) — then nothing looks at Lagged at all
+        if re.search(r"\.\s*recv\s*\(\s*\)", msk[o:c]):
+            return [name], [(name, _line(src, o), "no arm looks at RecvError::Lagged: a lagged receiver is silently skipped")], []
+        raise LostAnchor("%s: no broadcast recv() found" % u["fn"])
+    failures, samples = [], []
+    for m in arms:
+        k = o + m.end()
+        while msk[k].isspace():
+            k += 1
+        e = match_delim(msk, k) if msk[k] == "{" else msk.index(",", k)
+        if not re.search(r"\b(return|break)\b", msk[k:e]):
+            failures.append((name, _line(src, k), "the Lagged arm neither returns nor leaves the loop: the feed continues past the skipped events"))
+        samples.append("%s:%d Lagged arm ends the feed" % (file, _line(src, k)))
+    return [name], failures, samples
+
+
+def check_loops_unfiltered(u):
+    """C04: compute_available_needs decides, collection by collection, what to ask: the peer's heads, our gap ranges, the peer-held ranges
+    overlapping one, our partially held versions, the peer's missing seq ranges of one.  The per-element decisions are under contract as
+    fragments; that EVERY element reaches them is this obligation: none of the `for` loops of the function iterates through a filtering or
+    truncating adapter (filter, filter_map, take, take_while, skip, skip_while, step_by) — an element skipped by the loop header is a
+    version or range that is never requested."""
+    file = u["file"]
+    src, msk, o, c = _fn_body(file, u["fn"], u.get("impl"))
+    obligations, failures, samples = [], [], []
+    n = 0
+    for m in re.finditer(r"\bfor\s+", msk[o:c]):
+        k = o + m.end()
+        # `for PAT in EXPR {` — find ` in ` at depth 0, then the `{` at depth 0
+        j = k
+        while j < c and not (msk.startswith(" in ", j)):
+            if msk[j] in "([{":
+                j = match_delim(msk, j)
+            j += 1
+        if j >= c:
+            continue
+        e0 = j + 4
+        j = e0
+        while j < c and msk[j] != "{":
+            if msk[j] in "([":
+                j = match_delim(msk, j)
+            j += 1
+        expr = msk[e0:j]
+        if re.match(r"\s*<", expr):
+            continue  # `for<'a>` bound, not a loop
+        n += 1
+        pat = re.sub(r"\s+", " ", msk[k:e0 - 4]).strip()
+        name = "loop-%d-over-%s-examines-every-element" % (n, re.sub(r"[^A-Za-z0-9_]+", "-", pat).strip("-")[:30])
+        obligations.append(name)
+        bad = re.search(r"\.\s*(filter|filter_map|take|take_while|skip|skip_while|step_by)\s*\(", expr)
+        if bad:
+            failures.append((name, _line(src, e0), "the loop over `%s` goes through `.%s(..)`: elements dropped by the loop header are never examined, so what they stand for is never requested" % (re.sub(r"\s+", " ", expr).strip()[:80], bad.group(1))))
+        samples.append("%s:%d for %s in %s" % (file, _line(src, e0), pat, re.sub(r"\s+", " ", expr).strip()[:60]))
+    if not obligations:
+        raise LostAnchor("%s: no for loop found" % u["fn"])
+    return obligations, failures, samples
+
+
+CHECKS = {"loops_unfiltered": check_loops_unfiltered, "lagged_arm_returns": check_lagged_arm_returns, "apply_trigger_waits": check_apply_trigger_waits, "last_id_published": check_last_id_published, "sub_select_only": check_sub_select_only, "broadcast_delivery": check_broadcast_delivery, "updates_row_binding": check_updates_row_binding, "row_bindings": check_row_bindings, "feeds_fed": check_feeds_fed, "exists_binding": check_exists_binding, "seqmerge_params": check_seqmerge_params, "chunker_ranges": check_chunker_ranges, "persist_before_publish": check_persist_before_publish, "schema_reload": check_schema_reload, "cluster_id_fresh": check_cluster_id_fresh, "schema_ddl": check_schema_ddl, "schema_atomic": check_schema_atomic, "seq_range_guard": check_seq_range_guard, "exits_covered": check_exits_covered, "sub_lag_stops": check_sub_lag_stops, "single_snapshot": check_single_snapshot, "offer_loops": check_offer_loops, "speedy_prealloc": check_speedy_prealloc, "from_conn": check_from_conn, "sql_actor_scoping": check_sql_actor_scoping, "local_write_sequence": check_local_write_sequence, "insert_local_changes": check_insert_local_changes, "authz_layer": check_authz_layer, "readonly_guard": check_readonly_guard, "read_pool": check_read_pool}
 
 
 def run_unit(prop, u, tier, ctx, here):
